@@ -178,11 +178,28 @@ theorem linear_requires_order :
     run false [0x61, 10, 0x62] [.locate 2, .locate 0] = [some (2, 1), some (2, 4294967295)] ∧
     rowCol [0x61, 10, 0x62] 0 = (1, 1) := by decide
 
-/-- The recorded call sequence of the real `LinearLocator` on `class A(x=1, *b): pass\n`
-    (fold order: bases before keywords): the sixth call goes back from offset 15 to offset 8. -/
-theorem classdef_keyword_before_starred_base_fails :
-    run true [99, 108, 97, 115, 115, 32, 65, 40, 120, 61, 49, 44, 32, 42, 98, 41, 58, 32, 112, 97, 115, 115, 10]
-      [.locate 0, .locate 13, .locate 14, .locate 15, .locate 15, .locate 8]
+/-- `class A(x=1, *b): pass\n` -/
+def classdefText : List Nat :=
+  [99, 108, 97, 115, 115, 32, 65, 40, 120, 61, 49, 44, 32, 42, 98, 41, 58, 32, 112, 97, 115, 115, 10]
+
+/-- The call sequence the real `LinearLocator` performs on `class A(x=1, *b): pass\n` (recorded through
+    the hook; since /repo 505c970 the class keywords are located by look-ahead before the bases): it
+    is a forward history, so `linear_eq_spec` applies, and every call returns the reference position. -/
+theorem classdef_keyword_before_starred_base_forward :
+    Forward classdefText (initCursor classdefText)
+      [.locate 0, .locateOnly 8, .locateOnly 10, .locateOnly 11, .locateOnly 11, .locate 13, .locate 14,
+       .locate 15, .locate 15, .locate 18, .locate 22, .locate 22] ∧
+    run true classdefText
+      [.locate 0, .locateOnly 8, .locateOnly 10, .locateOnly 11, .locateOnly 11, .locate 13, .locate 14,
+       .locate 15, .locate 15, .locate 18, .locate 22, .locate 22]
+    = [some (1, 1), some (1, 9), some (1, 11), some (1, 12), some (1, 12), some (1, 14), some (1, 15),
+       some (1, 16), some (1, 16), some (1, 19), some (1, 23), some (1, 23)] := by decide
+
+/-- About the model only (no longer a history the code produces): the sequence the fold performed on
+    the same text *before* /repo 505c970 (bases folded before keywords) goes back from offset 15 to
+    offset 8 and ends in a panic. -/
+example :
+    run true classdefText [.locate 0, .locate 13, .locate 14, .locate 15, .locate 15, .locate 8]
     = [some (1, 1), some (1, 14), some (1, 15), some (1, 16), some (1, 16), none] := by decide
 
 theorem linear_any_order_fails : ¬ linear_any_order_full := by
